@@ -1,19 +1,29 @@
 /-!
-Model of `happysimulator/components/client/connection_pool.py` (`ConnectionPool.acquire/release`)
-as a transition system whose actions are the generator segments of `acquire()` and the calls of
-`release()`:
+Model of `happysimulator/components/client/connection_pool.py` (`ConnectionPool`) as a transition
+system whose actions are the generator segments of `acquire()` / the warm-up process, the calls of
+`release()`, the deliveries of `_pool_idle_timeout` events and the abandonment of an acquirer:
 
-    acq id      first segment of `acquire()`: take an idle connection, or start creating one
-                (`total < max`), or join the waiter queue
-    made id     the set-up latency of call `id` is over: the connection exists and is activated
-    poll id     a queued call looks whether `release` handed it a connection (poll-based wait)
-    timeout id  a queued call gives up (`TimeoutError`)
-    rel c       `release(connection c)`: direct hand-off to the first waiter, else back to idle
+    acq id        first segment of `acquire()`: take an idle connection, or start creating one
+                  (`total < max`), or join the waiter queue
+    made id       the set-up latency of call `id` is over: the connection exists and is activated
+    poll id       a queued call looks whether `release` handed it a connection (poll-based wait); the
+                  first waiter also helps itself to capacity that came back without a release (an idle
+                  connection parked by warm-up, a slot returned by an abandoned set-up)
+    timeout id    a queued call gives up (`TimeoutError`)
+    rel c         `release(connection c)`: direct hand-off to the first waiter, else back to idle
+    abandon id    the process inside `acquire()` is dropped / closed (`GeneratorExit`): a set-up in flight
+                  gives its reserved slot back, a queued call leaves the queue, a connection already handed
+                  over is released again
+    idleCheck c e `_pool_idle_timeout` for connection `c`, armed when it went idle at instant `e`: closes it
+                  when it is still in that idle session and the pool is above `min_connections`
+    warm          the warm-up process tests `total < min` (first delivery and after every connection)
+    wmade         a warm-up set-up is over: the connection is parked in the idle list
 
 `reserve = true` is the repaired code (fixes/C09-pool-reserve-slot.diff): the slot is counted in
 `total` when the set-up *starts*.  `reserve = false` is the unrepaired code: `total` is counted only
 after the latency, so every acquirer arriving during a set-up passes the `total < max` test.
-Idle-timeout closing and warm-up are not modelled.
+`now` is the clock of the step being executed (set by `stepAt`); only the idle stamps read it.
+`close_all` is not modelled.
 -/
 namespace HappyModel.C09.Pool
 
@@ -21,16 +31,23 @@ structure St where
   max : Nat
   reserve : Bool := true
   total : Nat := 0                    -- `_total_connections`
-  creating : Nat := 0                 -- set-ups in flight
+  creating : Nat := 0                 -- set-ups in flight (acquirers and warm-up)
   idle : List Nat := []               -- FIFO, `popleft`
   active : List Nat := []
   waiters : List Nat := []            -- call ids, FIFO
   handed : List (Nat × Nat) := []     -- (call id, connection) handed off, not yet noticed by its poll
   nextConn : Nat := 0
+  min : Nat := 0                      -- `_min_connections`
+  now : Nat := 0
+  creators : List Nat := []           -- call ids whose set-up is in flight
+  wflight : Nat := 0                  -- warm-up set-ups in flight
+  stamp : List (Nat × Nat) := []      -- (connection, `last_used_at`) of the latest idle session
+  closed : List Nat := []             -- (ghost) connections closed by the idle timeout
 deriving Repr, DecidableEq
 
 inductive Op
   | acq (id : Nat) | made (id : Nat) | poll (id : Nat) | timeout (id : Nat) | rel (c : Nat)
+  | abandon (id : Nat) | idleCheck (c e : Nat) | warm | wmade
 deriving Repr, DecidableEq
 
 inductive Res
@@ -44,38 +61,98 @@ inductive Res
   | toIdle
   | unknown               -- release of a connection that is not active
   | bad                   -- the schedule names a segment the model state does not allow
+  | rolledBack            -- abandon: the reserved slot is given back
+  | dequeued              -- abandon: the call left the waiter queue
+  | nothing               -- abandon of a call that is not inside `acquire()`
+  | closed | kept | stale -- idle-timeout check
+  | done                  -- warm-up: `total >= min`
 deriving Repr, DecidableEq
+
+/-- `last_used_at` of the idle session of connection `c` -/
+def stampOf (st : List (Nat × Nat)) (c : Nat) : Option Nat := (st.find? (·.1 == c)).map (·.2)
+
+def setStamp (st : List (Nat × Nat)) (c t : Nat) : List (Nat × Nat) := (c, t) :: st.filter (·.1 != c)
+
+/-- `release(c)` of an active connection: hand-off or back to idle -/
+def giveBack (s : St) (c : Nat) : St × Res :=
+  match s.waiters with
+  | w :: ws => ({ s with waiters := ws, handed := s.handed ++ [(w, c)] }, .handoff w)   -- stays active
+  | [] => ({ s with active := s.active.erase c, idle := s.idle ++ [c], stamp := setStamp s.stamp c s.now }, .toIdle)
+
+/-- start a set-up for call `id`: the slot is reserved at once -/
+def startCreate (s : St) (id : Nat) : St :=
+  { s with creating := s.creating + 1, creators := s.creators ++ [id],
+           total := if s.reserve then s.total + 1 else s.total }
 
 def step (s : St) : Op → St × Res
   | .acq id =>
     match s.idle with
     | c :: rest => ({ s with idle := rest, active := s.active ++ [c] }, .idle c)
     | [] =>
-      if s.total < s.max then
-        ({ s with creating := s.creating + 1, total := if s.reserve then s.total + 1 else s.total }, .creating)
+      if s.total < s.max then (startCreate s id, .creating)
       else ({ s with waiters := s.waiters ++ [id] }, .waiting)
-  | .made _ =>
-    if s.creating = 0 then (s, .bad)
+  | .made id =>
+    if !s.creators.contains id then (s, .bad)
     else
-      ({ s with creating := s.creating - 1, nextConn := s.nextConn + 1,
+      ({ s with creating := s.creating - 1, creators := s.creators.erase id, nextConn := s.nextConn + 1,
                 total := if s.reserve then s.total else s.total + 1,
                 active := s.active ++ [s.nextConn + 1] }, .conn (s.nextConn + 1))
   | .poll id =>
     match s.handed.find? (·.1 == id) with
     | some h => ({ s with handed := s.handed.filter (·.1 != id) }, .got h.2)
-    | none => (s, .wait)
+    | none =>
+      if s.waiters.head? != some id then (s, .wait)
+      else match s.idle with
+        | c :: rest => ({ s with waiters := s.waiters.tail, idle := rest, active := s.active ++ [c] }, .idle c)
+        | [] =>
+          if s.total < s.max then (startCreate { s with waiters := s.waiters.tail } id, .creating)
+          else (s, .wait)
   | .timeout id =>
     if (s.handed.find? (·.1 == id)).isSome then (s, .bad)
     else ({ s with waiters := s.waiters.filter (· != id) }, .timedOut)
   | .rel c =>
-    if !s.active.contains c then (s, .unknown)
-    else match s.waiters with
-      | w :: ws => ({ s with waiters := ws, handed := s.handed ++ [(w, c)] }, .handoff w)   -- stays active
-      | [] => ({ s with active := s.active.erase c, idle := s.idle ++ [c] }, .toIdle)
+    if !s.active.contains c then (s, .unknown) else giveBack s c
+  | .abandon id =>
+    if s.creators.contains id then
+      ({ s with creating := s.creating - 1, creators := s.creators.erase id,
+                total := if s.reserve then s.total - 1 else s.total }, .rolledBack)
+    else match s.handed.find? (·.1 == id) with
+      | some h =>
+        -- `release()` ignores a connection that is not active (a caller released it twice)
+        if !s.active.contains h.2 then ({ s with handed := s.handed.filter (·.1 != id) }, .nothing)
+        else giveBack { s with handed := s.handed.filter (·.1 != id) } h.2
+      | none =>
+        if s.waiters.contains id then ({ s with waiters := s.waiters.filter (· != id) }, .dequeued)
+        else (s, .nothing)
+  | .idleCheck c e =>
+    if s.idle.contains c && stampOf s.stamp c == some e then
+      if s.min < s.total then ({ s with idle := s.idle.erase c, total := s.total - 1, closed := s.closed ++ [c] }, .closed)
+      else (s, .kept)
+    else (s, .stale)
+  | .warm =>
+    if s.total < s.min then
+      ({ s with creating := s.creating + 1, wflight := s.wflight + 1,
+                total := if s.reserve then s.total + 1 else s.total }, .creating)
+    else (s, .done)
+  | .wmade =>
+    if s.wflight = 0 then (s, .bad)
+    else
+      ({ s with creating := s.creating - 1, wflight := s.wflight - 1, nextConn := s.nextConn + 1,
+                total := if s.reserve then s.total else s.total + 1,
+                idle := s.idle ++ [s.nextConn + 1], stamp := setStamp s.stamp (s.nextConn + 1) s.now },
+       .conn (s.nextConn + 1))
+
+/-- one step at clock value `t` -/
+def stepAt (s : St) (t : Nat) (o : Op) : St × Res := step { s with now := t } o
 
 def run (s : St) : List Op → St
   | [] => s
   | o :: os => run (step s o).1 os
+
+/-- timed run (what the driver executes) -/
+def runAt (s : St) : List (Nat × Op) → St
+  | [] => s
+  | (t, o) :: os => runAt (stepAt s t o).1 os
 
 /-! ### Spec: a judge over observed pool transcripts -/
 
@@ -92,51 +169,138 @@ deriving Repr
 structure Book where
   active : List Nat := []
   idle : List Nat := []
-  made : Nat := 0                    -- connections reported created
+  made : Nat := 0                    -- live connections: reported created and not reported closed
   inflight : Nat := 0                -- set-ups reported started and not finished
   blocked : List Nat := []
   handed : List (Nat × Nat) := []
   since : List (Nat × Nat) := []     -- (call id, clock value of its `acq`)
+  creators : List Nat := []          -- calls reported creating
+  wflight : Nat := 0                 -- warm-up set-ups reported started and not finished
+  stamp : List (Nat × Nat) := []     -- (connection, instant it was last reported going idle)
+  closed : List Nat := []            -- connections reported closed
+  /-- capacity came back without a release (abandoned set-up, warm-up connection, idle close) and the
+  first blocked call has not polled since: it helps itself at its next poll, not earlier (when it does,
+  the call behind it becomes the first one and has its own next poll to come) -/
+  slack : Bool := false
 deriving Repr
 
-def Book.apply (timeoutNs : Nat) (b : Book) (o : Obs) : Except String Book :=
+/-- judge-side parameters -/
+structure Params where
+  max : Nat
+  timeoutNs : Nat
+  min : Nat := 0
+  idleNs : Nat := 0
+deriving Repr
+
+/-- is there capacity the first blocked call could take? -/
+def Book.free (max : Nat) (b : Book) : Bool := !b.idle.isEmpty || decide (b.made + b.inflight < max)
+
+/-- `release(c)` observed (directly or through an abandoned hand-off) -/
+def Book.giveBack (b : Book) (t c : Nat) (r : Res) : Except String Book :=
+  match r with
+  | .handoff w =>
+    match b.blocked with
+    | [] => .error "pool/grant/not-waiting"
+    | h :: rest =>
+      if h ≠ w then .error "pool/fifo/out-of-order"
+      else .ok { b with blocked := rest, handed := b.handed ++ [(w, c)] }
+  | .toIdle =>
+    if !b.blocked.isEmpty then .error "pool/head/grantable-but-blocked"
+    else .ok { b with active := b.active.filter (· != c), idle := b.idle ++ [c], stamp := setStamp b.stamp c t }
+  | _ => .error "pool/unknown-observation"
+
+def Book.apply (pr : Params) (b : Book) (o : Obs) : Except String Book :=
   match o.op, o.res with
-  | .acq id, .idle c =>
+  | .acq _, .idle c =>
     if b.active.contains c then .error "pool/connection/double-grant"
     else if !b.idle.contains c then .error "pool/connection/not-idle"
     else .ok { b with idle := b.idle.filter (· != c), active := b.active ++ [c] }
-  | .acq _, .creating =>
-    if !b.idle.isEmpty then .error "pool/acquire/created-although-idle" else .ok { b with inflight := b.inflight + 1 }
-  | .acq id, .waiting => .ok { b with blocked := b.blocked ++ [id], since := (id, o.t) :: b.since }
-  | .made _, .conn c =>
-    if b.inflight = 0 then .error "pool/create/without-start"
+  | .acq id, .creating =>
+    if !b.idle.isEmpty then .error "pool/acquire/created-although-idle"
+    else .ok { b with inflight := b.inflight + 1, creators := b.creators ++ [id] }
+  | .acq id, .waiting =>
+    .ok { b with blocked := b.blocked ++ [id], since := (id, o.t) :: b.since,
+                 slack := b.slack && !b.blocked.isEmpty }
+  | .made id, .conn c =>
+    if b.inflight = 0 || !b.creators.contains id then .error "pool/create/without-start"
+    else if b.closed.contains c then .error "pool/connection/reused-after-close"
     else if b.active.contains c ∨ b.idle.contains c then .error "pool/connection/double-grant"
-    else .ok { b with inflight := b.inflight - 1, made := b.made + 1, active := b.active ++ [c] }
+    else .ok { b with inflight := b.inflight - 1, creators := b.creators.erase id, made := b.made + 1,
+                      active := b.active ++ [c] }
   | .poll id, .got c =>
     if !b.handed.contains (id, c) then .error "pool/grant/without-handoff"
     else .ok { b with handed := b.handed.filter (· != (id, c)) }
   | .poll id, .wait =>
-    if (b.handed.find? (·.1 == id)).isSome then .error "pool/grant/handoff-ignored" else .ok b
+    if (b.handed.find? (·.1 == id)).isSome then .error "pool/grant/handoff-ignored"
+    else if b.blocked.head? == some id then
+      if b.free pr.max then .error "pool/head/grantable-but-blocked" else .ok { b with slack := false }
+    else .ok b
+  | .poll id, .idle c =>
+    -- the first blocked call takes a connection that was parked in the idle list
+    if b.blocked.head? != some id then .error "pool/fifo/out-of-order"
+    else if b.active.contains c then .error "pool/connection/double-grant"
+    else if !b.idle.contains c then .error "pool/connection/not-idle"
+    else .ok { b with blocked := b.blocked.tail, idle := b.idle.filter (· != c), active := b.active ++ [c], slack := true }
+  | .poll id, .creating =>
+    -- the first blocked call opens a connection in a slot that came back
+    if b.blocked.head? != some id then .error "pool/fifo/out-of-order"
+    else if !b.idle.isEmpty then .error "pool/acquire/created-although-idle"
+    else .ok { b with blocked := b.blocked.tail, inflight := b.inflight + 1, creators := b.creators ++ [id], slack := true }
   | .timeout id, .timedOut =>
     if (b.handed.find? (·.1 == id)).isSome then .error "pool/timeout/connection-leaked"
     else match b.since.find? (·.1 == id) with
       | none => .error "pool/timeout/not-waiting"
       | some st =>
-        if o.t < st.2 + timeoutNs then .error "pool/timeout/early"
+        if o.t < st.2 + pr.timeoutNs then .error "pool/timeout/early"
+        else if b.blocked.head? == some id && b.free pr.max then .error "pool/timeout/although-grantable"
         else .ok { b with blocked := b.blocked.filter (· != id) }
   | .rel c, .handoff w =>
     if !b.active.contains c then .error "pool/release/unknown-connection-accepted"
-    else match b.blocked with
-      | [] => .error "pool/grant/not-waiting"
-      | h :: rest =>
-        if h ≠ w then .error "pool/fifo/out-of-order"
-        else .ok { b with blocked := rest, handed := b.handed ++ [(w, c)] }
+    else b.giveBack o.t c (.handoff w)
   | .rel c, .toIdle =>
     if !b.active.contains c then .error "pool/release/unknown-connection-accepted"
-    else if !b.blocked.isEmpty then .error "pool/head/grantable-but-blocked"
-    else .ok { b with active := b.active.filter (· != c), idle := b.idle ++ [c] }
+    else b.giveBack o.t c .toIdle
   | .rel c, .unknown =>
     if b.active.contains c then .error "pool/release/ignored-live-connection" else .ok b
+  | .abandon id, r =>
+    if b.creators.contains id then
+      -- the set-up dies with its caller: the slot it reserved must come back
+      if r != .rolledBack then .error "pool/abandon/slot-leaked"
+      else .ok { b with inflight := b.inflight - 1, creators := b.creators.erase id, slack := true }
+    else match b.handed.find? (·.1 == id) with
+      | some h =>
+        -- a connection already handed to the dead caller must go on to the next waiter / the idle list
+        if !b.active.contains h.2 then
+          -- its holder released the connection a second time meanwhile: nothing is left to pass on
+          if r != .nothing then .error "pool/unknown-observation"
+          else .ok { b with handed := b.handed.filter (·.1 != id) }
+        else match r with
+        | .handoff w => { b with handed := b.handed.filter (·.1 != id) }.giveBack o.t h.2 (.handoff w)
+        | .toIdle => { b with handed := b.handed.filter (·.1 != id) }.giveBack o.t h.2 .toIdle
+        | _ => .error "pool/abandon/connection-leaked"
+      | none =>
+        if b.blocked.contains id then
+          if r != .dequeued then .error "pool/abandon/waiter-left-in-queue"
+          else .ok { b with blocked := b.blocked.filter (· != id) }
+        else if r != .nothing then .error "pool/unknown-observation"
+        else .ok b
+  | .idleCheck c e, .closed =>
+    if b.active.contains c then .error "pool/close/connection-in-use"
+    else if !b.idle.contains c then .error "pool/close/not-idle"
+    else if stampOf b.stamp c != some e then .error "pool/close/stale-session"
+    else if o.t < e + pr.idleNs then .error "pool/close/early"
+    else if b.made + b.inflight ≤ pr.min then .error "pool/close/below-min"
+    else .ok { b with idle := b.idle.filter (· != c), made := b.made - 1, closed := b.closed ++ [c], slack := true }
+  | .idleCheck _ _, .kept => .ok b
+  | .idleCheck _ _, .stale => .ok b
+  | .warm, .creating => .ok { b with inflight := b.inflight + 1, wflight := b.wflight + 1 }
+  | .warm, .done => .ok b
+  | .wmade, .conn c =>
+    if b.wflight = 0 || b.inflight = 0 then .error "pool/create/without-start"
+    else if b.closed.contains c then .error "pool/connection/reused-after-close"
+    else if b.active.contains c ∨ b.idle.contains c then .error "pool/connection/double-grant"
+    else .ok { b with inflight := b.inflight - 1, wflight := b.wflight - 1, made := b.made + 1,
+                      idle := b.idle ++ [c], stamp := setStamp b.stamp c o.t, slack := true }
   | _, _ => .error "pool/unknown-observation"
 
 def Book.check (max : Nat) (b : Book) (o : Obs) : Option String :=
@@ -148,16 +312,16 @@ def Book.check (max : Nat) (b : Book) (o : Obs) : Option String :=
   else if o.n ≠ b.made + b.inflight ∧ o.n ≠ b.made then some "pool/total/count-mismatch"
   else if o.p ≠ b.blocked.length then some "pool/pending/count-mismatch"
   else if b.active.length + b.idle.length ≠ b.made then some "pool/conservation/active-plus-idle"
-  else if !b.blocked.isEmpty ∧ (!b.idle.isEmpty ∨ b.made + b.inflight < max) then some "pool/head/grantable-but-blocked"
+  else if !b.blocked.isEmpty ∧ b.free max ∧ !b.slack then some "pool/head/grantable-but-blocked"
   else none
 
-def judge (max timeoutNs : Nat) : Book → List Obs → Option String
+def judge (pr : Params) : Book → List Obs → Option String
   | _, [] => none
   | b, o :: os =>
-    match b.apply timeoutNs o with
+    match b.apply pr o with
     | .error e => some e
-    | .ok b' => match b'.check max o with
+    | .ok b' => match b'.check pr.max o with
       | some e => some e
-      | none => judge max timeoutNs b' os
+      | none => judge pr b' os
 
 end HappyModel.C09.Pool
